@@ -8,7 +8,6 @@ import (
 
 	"github.com/ChrisTrenkamp/xsel/node"
 	"github.com/ChrisTrenkamp/xsel/store"
-	"golang.org/x/text/language"
 )
 
 type Function func(context Context, args ...Result) (Result, error)
@@ -435,23 +434,29 @@ func lang(context Context, args ...Result) (Result, error) {
 	return Bool(false), nil
 }
 
+// checkLang implements the comparison of lang(): the language of the node
+// (targStr, from xml:lang) equals the argument (srcStr) or is a sublanguage
+// of it — it starts with the argument followed by '-' — ignoring ASCII case.
 func checkLang(srcStr, targStr string) Bool {
-	srcLang := language.Make(srcStr)
-	srcRegion, srcRegionConf := srcLang.Region()
-
-	targLang := language.Make(targStr)
-	targRegion, targRegionConf := targLang.Region()
-
-	if srcRegionConf == language.Exact && targRegionConf != language.Exact {
+	if len(targStr) < len(srcStr) {
 		return Bool(false)
 	}
 
-	if srcRegion != targRegion && srcRegionConf == language.Exact && targRegionConf == language.Exact {
-		return Bool(false)
+	for i := 0; i < len(srcStr); i++ {
+		if asciiLower(srcStr[i]) != asciiLower(targStr[i]) {
+			return Bool(false)
+		}
 	}
 
-	_, _, conf := language.NewMatcher([]language.Tag{srcLang}).Match(targLang)
-	return Bool(conf >= language.High)
+	return Bool(len(targStr) == len(srcStr) || targStr[len(srcStr)] == '-')
+}
+
+func asciiLower(c byte) byte {
+	if c >= 'A' && c <= 'Z' {
+		return c + ('a' - 'A')
+	}
+
+	return c
 }
 
 func number0(context Context, args ...Result) (Result, error) {
